@@ -120,70 +120,61 @@ def run_hist():
         steps = []
         for op in h["ops"]:
             k = op[0]
-            applied = None       # list of model-level ops that really happened
+            applied = []         # model-level ops that were issued (the model mirrors a KeyError as a no-op)
+            raised = None
             try:
                 if k == "render":            # the real do_render creates both jobs
                     _, c, w = op
                     app = nserve.Application()
                     app.qserve = proxy
                     r = app.do_render(c, {"writer": w}, is_new=False)
-                    if "error" in r:
-                        applied = []
-                    else:
+                    if "error" not in r:
                         applied = [["J", now[0], "%s:makezip" % c, ["P", 20 * 60, None]],
                                    ["J", now[0], "%s:render-%s" % (c, w), ["P", 20 * 60, None]]]
                 elif k == "push":
                     _, jid, channel, timeout, ttl = op
-                    plugin.rpc_qadd(channel=channel, jobid=jid, timeout=timeout, ttl=ttl)
                     applied = [["J", now[0], jid, ["P", timeout if timeout is not None else 120, ttl]]]
+                    plugin.rpc_qadd(channel=channel, jobid=jid, timeout=timeout, ttl=ttl)
                 elif k == "pull":
                     _, channel = op
                     q = wq.channel2q.get(channel, [])
                     if any(not j.done for j in q):      # never block
                         got = plugin.rpc_qpull([channel])
                         applied = [["J", now[0], got["jobid"], ["U"]]]
-                    else:
-                        applied = []
                 elif k == "setinfo":
                     _, jid, info = op
-                    plugin.rpc_qsetinfo(jid, info)
                     applied = [["J", now[0], jid, ["I", info]]]
+                    plugin.rpc_qsetinfo(jid, info)
                 elif k == "finish":
                     _, jid, result, error = op
-                    plugin.rpc_qfinish(jid, result=result, error=error)
                     applied = [["J", now[0], jid, ["F", result, error]]]
+                    plugin.rpc_qfinish(jid, result=result, error=error)
                 elif k == "kill":
                     _, jid = op
-                    plugin.rpc_qkill([jid])
                     applied = [["J", now[0], jid, ["K"]]]
+                    plugin.rpc_qkill([jid])
                 elif k == "dropmark":
                     _, jid = op
-                    plugin.rpc_qdrop([jid])
                     applied = [["J", now[0], jid, ["M"]]]
+                    plugin.rpc_qdrop([jid])
                 elif k == "wait":
                     _, jid = op
                     j = wq.id2job.get(jid)
                     if j is None or j.done:             # never block
-                        plugin.rpc_qwait([jid])
                         applied = [["J", now[0], jid, ["W"]]]
-                    else:
-                        applied = []
+                        plugin.rpc_qwait([jid])
                 elif k == "tick":                       # clock advances, handletimeouts runs
                     now[0] += op[1]
-                    wq.handletimeouts()
                     applied = [["T", now[0]]]
+                    wq.handletimeouts()
                 elif k == "dropdead":                   # clock advances, watchdog runs
                     now[0] += op[1]
-                    wq.dropdead()
                     applied = [["D", now[0]]]
+                    wq.dropdead()
                 else:
                     raise RuntimeError("unknown op %r" % (op,))
-                raised = None
             except KeyError:
                 raised = "KeyError"
-                applied = [a for a in [["J", now[0], op[1], {"setinfo": ["I", op[2] if len(op) > 2 else {}],
-                                                             "finish": ["F"] + list(op[2:4]),
-                                                             "wait": ["W"]}.get(k)]] if a[3] is not None]
             snaps = {jid: proxy.qinfo(jid) for jid in tracked}
             live = {}
             for jid in tracked:
